@@ -1,7 +1,7 @@
 //! C29: every extracted route x credential kinds x RBAC configurations, through `warp::test`
 //! against the REAL filter trees (`cluster_routes_with_raft`, `raft_routes`, `api_routes`) wrapped in
-//! the production `recover(handle_rejection)`.  Both servers are driven from this one module (the
-//! vh-cluster crate depends on varpulis-cli for the tenant/admin routes).
+//! the production `recover(handle_rejection)`.  Both servers are driven from this one module: it lives in
+//! vh-cli, whose varpulis-cluster dependency enables the `raft` feature (no RocksDB needed).
 //!
 //! The route list is NOT written here: it is `lean/Varpulis/Generated/routes.tsv`, regenerated from
 //! the source by tools/extract_routes.py in the same `bin/check` run that builds the Lean tables.
